@@ -90,13 +90,44 @@ SPECS = {
         '/*C06.limit.parse*/ (lexem_at(*old(self), 0) is Some && lexem_at(*old(self), 0)->Some_0 is Limit && lexem_text(lexem_at(*old(self), 1)) is None) ==> r is Err',
     ]),
     'parse_output_format': dict(ret='r', attrs=[NODEC], ensures=FRAME),
+    # select list and root options: panic freedom, cursor frame and termination only
+    'parse_root_options': dict(ret='r', attrs=[NODEC], ensures=FRAME, hoist_items=True, loops={0: dict(invariant=LOOPINV)}),
+    'parse_fields': dict(ret='r', attrs=[NODEC], ensures=FRAME, loops={0: dict(invariant=LOOPINV)}),
+    'is_root_option_keyword': dict(external_body=True),
     'negate_expr_op': dict(ret='r', attrs=[NODEC], rewrites=[('let &Some(op) = &expr.op', 'let Some(op) = expr.op')],
                            ensures=['/*C03.demorgan*/ cond_wf(*expr) ==> cond_wf(r)',
                                     '/*C03.demorgan*/ cond_wf(*expr) ==> cond_sem(r) == !cond_sem(*expr)'],
                            proofs={r'let\s+mut\s+result\s*=\s*expr\.clone\(\);': 'proof { broadcast use axiom_atom_negate; }'}),
 }
 
+# ---- termination: every loop and every (mutually) recursive parser method carries a decreases clause -----------------
+# measure: rem(p) = tokens left (+1), clamped at 0 once the cursor is past the end; recursion level breaks ties
+LEVEL = {'parse_expr': 8, 'parse_and': 7, 'parse_cond': 6, 'parse_add_sub': 5, 'parse_mul_div': 4, 'parse_paren': 3,
+         'parse_func_scalar': 2, 'parse_function': 1}
+PROGRESS = 'r is Ok ==> final(self).index > old(self).index'
+for _f, _sp in SPECS.items():
+    if isinstance(_sp, dict) and NODEC in _sp.get('attrs', []):
+        _sp['attrs'] = [a for a in _sp['attrs'] if a != NODEC]
+        if _f in LEVEL:
+            _sp['decreases'] = f'rem(*old(self)), {LEVEL[_f]}int'
+            if _f != 'parse_function':
+                _sp['ensures'] = list(_sp.get('ensures', [])) + [PROGRESS]
+            else:
+                _sp['requires'] = list(_sp.get('requires', [])) + ['old(self).index <= old(self).lexems.len()']
+        _loops = {}
+        for _k, _lp in _sp.get('loops', {}).items():
+            _lp = dict(_lp)
+            _lp['decreases'] = 'rem(*self)'
+            if _f in ('parse_expr', 'parse_and', 'parse_add_sub', 'parse_mul_div'):
+                _lp['invariant'] = list(_lp['invariant']) + ['self.index > old(self).index']
+            _loops[_k] = _lp
+        if _loops:
+            _sp['loops'] = _loops
+SPECS['negate_expr_op']['decreases'] = 'expr'
+
 EXTRA = '''
+spec fn rem(p: Parser) -> int { if p.index <= p.lexems.len() { p.lexems.len() + 1 - p.index } else { 0 } }
+
 pub open spec fn spec_arith_node(l: Expr, op: ArithmeticOp, r: Expr) -> Expr {
     Expr { left: Some(Box::new(l)), arithmetic_op: Some(op), logical_op: None, op: None, right: Some(Box::new(r)), minus: false,
            field: None, function: None, args: None, val: None }
